@@ -288,3 +288,13 @@ func runOne(j *job, h func()) {
 	}()
 	h()
 }
+
+// ---- file-model control (no-ops natively: the real file system is used and no
+// crash is injected; crash-point harnesses are not replayable natively)
+
+func CrashBefore(k int)      {}
+func TornWrites(on bool)     {}
+func FsOps() int             { return 0 }
+func RunCrash(f func()) bool { f(); return false }
+func FsPaths() []string      { return nil }
+func FsFileNames() []string  { return nil }
